@@ -542,6 +542,9 @@ def decide_with(prop, tier, seed, a, rundir, woven, t0, forced, round_):
             f2, u2 = classify(d2, r2, sm, os.path.join(woven, "src"))
             key = lambda f: (f["unit"], f["kind"], f.get("clause"), f.get("woven_loc"))
             keep = {key(f) for f in f2}
+            for f in failures:
+                if key(f) not in keep and not any(match_known(f, known0, p) for p in f["tags"]):
+                    print("NOTE property=%s unstable proof: %s %s failed at rlimit 60 and passed on retry (seed %d, rlimit %d)" % (prop, f["unit"], f["kind"], sd, rl))
             failures = [f for f in failures if key(f) in keep]
             if not failures:
                 out = out2
